@@ -102,3 +102,38 @@ Proof.
   destruct (set_then_get id (slice_store l n v z) s H) as [s' [E1 [E2 _]]].
   exists s'. split; [exact E1|]. eexists. split; [exact E2|]. split; [apply store_written|apply store_length].
 Qed.
+
+(* strings as immutable byte sequences: s[:] is s, s[a:a] is empty, s[i] is the i-th byte, and adjacent substrings concatenate
+   to the substring over the union (so no byte is lost or duplicated at any cut) *)
+Theorem sub_full (s : bytes) : sub_bytes s 0 (length s) = s.
+Proof. unfold sub_bytes. simpl. apply firstn_all. Qed.
+
+Theorem sub_empty (s : bytes) a : sub_bytes s a 0 = [].
+Proof. reflexivity. Qed.
+
+Theorem sub_single (s : bytes) i : (i < length s)%nat -> sub_bytes s i 1 = [nth i s 0%N].
+Proof.
+  revert i; induction s as [|c s IH]; intros [|i] H; simpl in *; try lia; [reflexivity|].
+  apply (IH i). lia.
+Qed.
+
+Lemma firstn_add {A} (l : list A) n m : firstn (n + m) l = firstn n l ++ firstn m (skipn n l).
+Proof. revert l; induction n as [|n IH]; intros [|y l]; simpl; auto. - destruct m; reflexivity. - f_equal. apply IH. Qed.
+
+Lemma skipn_add {A} (l : list A) n m : skipn (n + m) l = skipn m (skipn n l).
+Proof. revert l; induction n as [|n IH]; intros [|y l]; simpl; auto. destruct m; reflexivity. Qed.
+
+Theorem sub_split (s : bytes) a b c : (a <= b <= c)%nat ->
+  sub_bytes s a (b - a) ++ sub_bytes s b (c - b) = sub_bytes s a (c - a).
+Proof.
+  intros [H1 H2]. unfold sub_bytes.
+  replace (c - a)%nat with ((b - a) + (c - b))%nat by lia. rewrite firstn_add. f_equal.
+  rewrite <- skipn_add. do 2 f_equal. lia.
+Qed.
+
+Theorem sub_concat_left (s t : bytes) : sub_bytes (s ++ t) 0 (length s) = s /\ sub_bytes (s ++ t) (length s) (length t) = t.
+Proof.
+  unfold sub_bytes; simpl. split.
+  - rewrite firstn_app, Nat.sub_diag, firstn_all. simpl. apply app_nil_r.
+  - rewrite skipn_app, Nat.sub_diag, skipn_all. simpl. apply firstn_all.
+Qed.
